@@ -743,11 +743,15 @@ impl<'a> World<'a> {
                     let u = self.unknown.public().to_peer_id();
                     let fake = data::seed_bytes(self.plan.seed, "foreign-advert", self.foreign_keys.len() as u64).to_vec();
                     self.foreign_keys.push(fake.clone());
-                    let mut keys = vec![(NetworkAddress::from_record_key(&RecordKey::new(&fake)), RecordType::Chunk)];
-                    // also a real key some other node holds and this one may lack
-                    if let Some(k) = self.want.keys().next().cloned() {
-                        keys.push((NetworkAddress::from_record_key(&RecordKey::new(&k)), RecordType::Chunk));
-                    }
+                    // alternately: a list of two keys (an unknown one and a real one this node may lack), a single
+                    // unknown key, a single real key (single-key lists take the fetcher's immediate-fetch path)
+                    let real = self.want.keys().nth(self.foreign_keys.len() % self.want.len().max(1)).cloned();
+                    let fake_k = (NetworkAddress::from_record_key(&RecordKey::new(&fake)), RecordType::Chunk);
+                    let keys = match (self.foreign_keys.len() % 3, real) {
+                        (1, _) | (_, None) => vec![fake_k],
+                        (2, Some(k)) => vec![(NetworkAddress::from_record_key(&RecordKey::new(&k)), RecordType::Chunk)],
+                        (_, Some(k)) => vec![fake_k, (NetworkAddress::from_record_key(&RecordKey::new(&k)), RecordType::Chunk)],
+                    };
                     self.rep.fault("advert_from_peer_not_among_closest");
                     self.rep.log(format!("net: unknown peer sends a replication list of {} keys to n{i}", keys.len()));
                     self.hosts[i].driver.verif_handle_replicate_request(NetworkAddress::from_peer(u), keys);
